@@ -450,31 +450,19 @@ impl Shared {
         };
         st.attempts.push(a);
         st.conn_answered.insert(conn, outcome.is_reply());
+        // A failure the fleet OBSERVES inside an attempt (refused connect, reset, timeout, malformed
+        // reply) earns no excuse: the fleet knows that connection is bad, so "a later attempt or call
+        // reconnects and succeeds once the node is reachable again" applies to the very next one.
+        // Only a connection the node kills while no attempt is in flight (`idle_close`) excuses one
+        // failed attempt, because the fleet cannot have known.
         match outcome {
             Out::Refused => {
                 st.last_failure = Some(Out::Refused);
-                st.excuse = true;
                 self.set_listening(&mut st, false);
             }
-            Out::AcceptClose => {
-                st.last_failure = Some(Out::AcceptClose);
-                st.excuse = true;
-            }
-            Out::Silent => {
-                // what becomes of this connection is the fleet's choice (it may
-                // drop it now or keep it and lose it later): grant the excuse
-                // here, at a deterministic point
-                st.last_failure = Some(Out::Silent);
-                // (a request the fleet sends on a connection that is already known to be
-                // silent earns no further excuse: keeping that connection is the fleet's fault)
-                if scripted {
-                    st.excuse = true;
-                }
-            }
-            Out::Malformed => {
-                st.last_failure = Some(Out::Malformed);
-                st.excuse = true;
-            }
+            Out::AcceptClose => st.last_failure = Some(Out::AcceptClose),
+            Out::Silent => st.last_failure = Some(Out::Silent),
+            Out::Malformed => st.last_failure = Some(Out::Malformed),
             _ => {}
         }
         (outcome, realized, serial)
